@@ -42,7 +42,16 @@ func genSysProgram(t *rapid.T) SProgram {
 	for r := 0; r < rounds; r++ {
 		n := rapid.IntRange(0, nodes-1).Draw(t, "target")
 		p.Ops = append(p.Ops, SOp{K: rapid.SampledFrom([]string{"remove", "nodedrop"}).Draw(t, "leave"), Node: n})
-		switch rapid.IntRange(0, 3).Draw(t, "away") {
+		// a third of the rebuilds run with receiver ports taken (transfers fail); most
+		// of those have the profile in which a transfer error that goes unnoticed
+		// matters: the target comes back stale and only writes happened meanwhile,
+		// so every file already exists on it under the same name
+		portbusy := rapid.IntRange(0, 2).Draw(t, "portbusy") == 0
+		away := rapid.IntRange(0, 3).Draw(t, "away")
+		if portbusy && rapid.IntRange(0, 3).Draw(t, "pbprofile") > 0 {
+			away = 1
+		}
+		switch away {
 		case 0: // nothing happened
 		case 1, 2: // writes only: the chains stay equal, the revision counters differ
 			for k := rapid.IntRange(1, 3).Draw(t, "awaywrites"); k > 0; k-- {
@@ -57,12 +66,12 @@ func genSysProgram(t *rapid.T) SProgram {
 				}
 			}
 		}
-		if rapid.IntRange(0, 2).Draw(t, "freshtarget") == 0 {
+		if rapid.IntRange(0, 2).Draw(t, "freshtarget") == 0 && !(portbusy && away == 1) {
 			p.Ops = append(p.Ops, SOp{K: "reconnect", Node: n, Str: "fresh"})
 		}
 		sr := SOp{K: "sysrebuild", Node: n, N: int64(rapid.IntRange(0, 12).Draw(t, "fgwrites")), Seed: rapid.IntRange(1, 5000).Draw(t, "seed"),
 			Len: int64(rapid.IntRange(0, 400).Draw(t, "gapms")), Reps: rapid.IntRange(0, 1).Draw(t, "aligned")}
-		if rapid.IntRange(0, 2).Draw(t, "portbusy") == 0 {
+		if portbusy {
 			sr.Str = "portbusy"
 		}
 		p.Ops = append(p.Ops, sr)
